@@ -324,16 +324,67 @@ func splitFact(c ast.Expr, positive bool) []Fact {
 	return []Fact{{Cond: c, Positive: positive}}
 }
 
-// FeatureTest describes a call X.HasFeature(feature, value).
+// FeatureTest describes an expression that tests one feature: a call X.HasFeature(feature,
+// value), a call of a helper that only wraps one (FeatureHelpers), or the nil test of the error
+// such a helper returned. Flip: the expression is true exactly when the feature is NOT set.
 type FeatureTest struct {
 	Feature string // constant value, e.g. "MOVES_HISTORY"
 	Value   string
 	Call    *ast.CallExpr
+	Flip    bool
 }
 
-// AsFeatureTest recognises ledger.Ledger.HasFeature(const, const) calls.
+// AsFeatureTest recognises feature tests (see FeatureTest).
 func AsFeatureTest(info *types.Info, e ast.Expr) *FeatureTest {
-	call, ok := ast.Unparen(e).(*ast.CallExpr)
+	e = ast.Unparen(e)
+	switch v := e.(type) {
+	case *ast.UnaryExpr:
+		if v.Op == token.NOT {
+			if ft := AsFeatureTest(info, v.X); ft != nil {
+				cp := *ft
+				cp.Flip = !cp.Flip
+				return &cp
+			}
+		}
+		return nil
+	case *ast.BinaryExpr:
+		if v.Op != token.EQL && v.Op != token.NEQ {
+			return nil
+		}
+		x, y := v.X, v.Y
+		if IsNilExpr(info, x) {
+			x, y = y, x
+		}
+		if !IsNilExpr(info, y) {
+			return nil
+		}
+		var call *ast.CallExpr
+		switch xv := ast.Unparen(x).(type) {
+		case *ast.Ident:
+			obj := info.ObjectOf(xv)
+			if obj == nil || FeatureErrAmbiguous[obj] {
+				return nil
+			}
+			call = featureErrDefs[obj]
+		case *ast.CallExpr:
+			call = xv
+		}
+		if call == nil {
+			return nil
+		}
+		ft, h := HelperTest(info, call)
+		if ft == nil || !h.Err {
+			return nil
+		}
+		ft.Flip = v.Op == token.NEQ // err != nil: the feature is missing
+		return ft
+	case *ast.CallExpr:
+		if ft, h := HelperTest(info, v); ft != nil && !h.Err {
+			ft.Flip = h.Flip
+			return ft
+		}
+	}
+	call, ok := e.(*ast.CallExpr)
 	if !ok {
 		return nil
 	}
@@ -360,7 +411,7 @@ func FeatureFacts(info *types.Info, facts []Fact) map[string]bool {
 	out := map[string]bool{}
 	for _, f := range facts {
 		if ft := AsFeatureTest(info, f.Cond); ft != nil {
-			out[ft.Feature+"="+ft.Value] = f.Positive
+			out[ft.Feature+"="+ft.Value] = f.Positive != ft.Flip
 		}
 	}
 	return out
